@@ -671,8 +671,8 @@ theorem step2_filter (n : Nat) (hin : StepIH d cfg dec n) (inp : PQ2) (pred : Pl
 
 /-! ## ancestorQuery -/
 
-def ancBody (t : Ref → Bool) (key : Ref → UInt64) (s : Bool) (f : Nat) (k : Ref × Bool) (p : Option (List UInt64))
-    (c : Ref) : Res (Ref × (Ref × Bool) × Option (List UInt64)) × Ref :=
+def ancBody (t : Ref → Bool) (key : Ref → String) (s : Bool) (f : Nat) (k : Ref × Bool) (p : Option (List String))
+    (c : Ref) : Res (Ref × (Ref × Bool) × Option (List String)) × Ref :=
   (match ancLoop d t key s f k.1 k.2 (p.getD []) with
     | .yield (j, tb') => .yield (j, (j, false), some tb')
     | .done => .done
@@ -680,7 +680,7 @@ def ancBody (t : Ref → Bool) (key : Ref → UInt64) (s : Bool) (f : Nat) (k : 
 
 /-- specification of an ancestor state: de-duplicate (against the table) what is left of the closure
 followed by the candidates of the remaining input nodes -/
-def ancR (t : Ref → Bool) (key : Ref → UInt64) (s : Bool) (it : Option (Ref × Bool)) (tb : Option (List UInt64))
+def ancR (t : Ref → Bool) (key : Ref → String) (s : Bool) (it : Option (Ref × Bool)) (tb : Option (List String))
     (_c : Ref) (xs : List Item) : List Item :=
   plain (dedupByKey key
     ((match it with
@@ -689,7 +689,7 @@ def ancR (t : Ref → Bool) (key : Ref → UInt64) (s : Bool) (it : Option (Ref 
       ++ xs.flatMap (fun x => ancCands d t s x.r true)) (tb.getD []))
 
 theorem step2_ancestor (n : Nat) (hin : StepIH d cfg dec n) (a : AxisInfo) (s : Bool) (inp : PQ2) (hp : PSz d n inp)
-    (it : Option (Ref × Bool)) (tb : Option (List UInt64)) (c : Ref) (hi : (PQ2.ancestor a s inp it tb).Inv d)
+    (it : Option (Ref × Bool)) (tb : Option (List String)) (c : Ref) (hi : (PQ2.ancestor a s inp it tb).Inv d)
     (hg : Good d c) : Step2 d cfg dec (.ancestor a s inp it tb) c := by
   refine closure_step (mach2 d cfg dec) (mach2_laws d cfg dec) (Good d) (PSz d n) (PSz_same d cfg dec n) hin
     (fun inp it p => .ancestor a s inp it p) (fun k => Good d k.1) (fun k => Good d k.1) (fun p => some (p.getD [])) (fun p => some (p.getD []))
@@ -999,7 +999,7 @@ theorem step2_preceding_sib (n : Nat) (hin : StepIH d cfg dec n) (a : AxisInfo)
 
 /-! ## unionQuery -/
 
-theorem mem_dedupByKey (key : Ref → UInt64) : ∀ (xs : List Ref) (m : List UInt64) (x : Ref),
+theorem mem_dedupByKey (key : Ref → String) : ∀ (xs : List Ref) (m : List String) (x : Ref),
     x ∈ dedupByKey key xs m → x ∈ xs
   | [], _, _, h => by cases h
   | y :: ys, m, x, h => by
